@@ -161,6 +161,19 @@ async fn run(ctx: &mut Ctx, ty: &str, nsubs: usize, npub: usize, small: bool, se
                 _ => {}
             }
         }
+        // a subscriber that is not reading may still talk: it changes a subscription that
+        // matches nothing published here
+        let mut talked = false;
+        for sb in subs.iter() {
+            if sb.stalled_from.is_some() && sb.peer.conn.credit().is_some() && !sb.peer.conn.end_observed() && r.chance(1, 8) {
+                sb.peer.send(&[vec![if r.chance(2, 3) { 1u8 } else { 0u8 }, b'z', b'z']]);
+                ctx.count("subscription_changes_sent_by_a_stalled_subscriber");
+                talked = true;
+            }
+        }
+        if talked {
+            sim::settle().await;
+        }
         let size = *r.pick(&sizes);
         let mut msg: Frames = vec![b"t".to_vec()];
         msg.extend(rc::tagged(1, i as u32, &[size]));
@@ -404,10 +417,10 @@ impl Prop for C12 {
             v.push(json!({"kind": "many", "ty": ty, "subs": 96, "npub": 25, "seed": mix(seed ^ 0x96)}));
             v.push(json!({"kind": "many", "ty": ty, "subs": 200, "npub": 10, "seed": mix(seed ^ 0x200)}));
             for n in 2..=5usize {
-                for k in 0..tier.pick(12, 100) {
+                for k in 0..tier.pick(12, 400) {
                     v.push(json!({"kind": "run", "ty": ty, "subs": n, "npub": 200, "small": false, "seed": mix(seed ^ 0xC12 ^ (k as u64) << 4 ^ n as u64)}));
                 }
-                for k in 0..tier.pick(3, 20) {
+                for k in 0..tier.pick(3, 60) {
                     // many small messages: a missing high-water mark shows as unbounded retention
                     v.push(json!({"kind": "run", "ty": ty, "subs": n, "npub": tier.pick(2000, 5000), "small": true, "seed": mix(seed ^ 0x5C12 ^ (k as u64) << 4 ^ n as u64)}));
                 }
@@ -429,6 +442,7 @@ impl Prop for C12 {
 
     fn floors(&self, _tier: Tier) -> Vec<(&'static str, u64)> {
         vec![
+            ("subscription_changes_sent_by_a_stalled_subscriber", 100),
             ("publishes", 20_000),
             ("stalls", 20),
             ("stall_inside_frame_header", 5),
